@@ -752,7 +752,7 @@ def gen_cases(ctx):
         cases.append(place_case(rng, L, [rng.random() < p for _ in range(2 * L + 4)], 'sensor'))
     cases += [gen_order_case(rng) for _ in range(ctx.q(150, 5000))]
     cases += [gen_url_case(rng) for _ in range(ctx.q(220, 6000))]
-    cases += [gen_flags_case(rng) for _ in range(ctx.q(110, 4000))]
+    cases += [gen_flags_case(rng) for _ in range(ctx.q(220, 4000))]
     return cases
 
 
